@@ -1474,7 +1474,8 @@ def _compute_minmax_args(
             result_data.append(masked_reduce_coords[best_arg])
         else:
             # best value is a fill value, find the first occurrence of it
-            current_coord = np.array(-1, dtype=coords.dtype)
+            # positions are counted in intp: -1 is not representable in an unsigned coordinate dtype
+            current_coord = np.array(-1, dtype=np.intp)
             found = False
             # a stored value equal to the fill value counts as a fill value
             masked_reduce_coords = masked_reduce_coords[masked_data != fill_value]
@@ -1484,7 +1485,7 @@ def _compute_minmax_args(
                     result_data.append(idx)
                     found = True
                     break
-                current_coord = new_coord
+                current_coord = new_coord.astype(np.intp)
             # get the first fill value after all non-fill values
             if not found:
                 result_data.append(current_coord + 1)
